@@ -23,6 +23,7 @@ for c in re.findall(r'C[0-9][0-9]', str(m.get('caught_by',''))) or [m['property'
     if c not in ids: ids.append(c)
 print(' '.join(ids))" 2>/dev/null)
   [ -n "${CHECKS:-}" ] && checks="$CHECKS"
+  if python3 -c "import json,sys; sys.exit(0 if json.load(open('$sd/meta.json')).get('obsolete') else 1)" 2>/dev/null; then echo "$(basename $sd): OBSOLETE (see meta.json)"; continue; fi
   git -C "$WT" checkout -q -- . ; git -C "$WT" clean -fdq
   label=$(basename $(dirname $sd))/$(basename $sd)
   conf=""
